@@ -40,8 +40,9 @@ type KnownFinding struct {
 }
 
 type fnInfo struct {
-	idx map[ssa.Value]int
-	n   int
+	idx   map[ssa.Value]int
+	n     int
+	model bool // environment-model or harness function (not code under test)
 }
 
 func (e *Engine) info(fn *ssa.Function) *fnInfo {
@@ -51,6 +52,14 @@ func (e *Engine) info(fn *ssa.Function) *fnInfo {
 		return fi
 	}
 	fi := &fnInfo{idx: map[ssa.Value]int{}}
+	if fn.Pkg != nil && strings.Contains(fn.Pkg.Pkg.Path(), "/internal/vsys/") {
+		fi.model = true
+	}
+	for f := fn; f != nil; f = f.Parent() {
+		if p := f.Pos(); p.IsValid() && strings.Contains(e.Fset.Position(p).Filename, "zz_verif_") {
+			fi.model = true
+		}
+	}
 	for _, p := range fn.Params {
 		fi.idx[p] = fi.n
 		fi.n++
